@@ -1718,6 +1718,11 @@ def havoc_value(it, name, kind, cur):
     if isinstance(kind, tuple) and kind[0] == "list":
         ety = kind[1]
         return SymList(ctx.fresh(name + "_len", TInt), z3.Const(ctx.fresh_name(name + "_arr"), z3.ArraySort(z3.IntSort(), ety.sort())), ety)
+    if isinstance(kind, tuple) and kind[0] == "optional":
+        # value that is either None or of the inner kind: both alternatives are explored
+        if ctx.decide(2, None, f"opt_{name}") == 0:
+            return None
+        return havoc_value(it, name, kind[1], cur)
     if isinstance(kind, tuple) and kind[0] == "set":
         return SymSet(z3.Const(ctx.fresh_name(name + "_has"), z3.ArraySort(kind[1].sort(), z3.BoolSort())), kind[1])
     if isinstance(kind, tuple) and kind[0] == "dict":
